@@ -38,6 +38,19 @@ pub fn run_c15(ctx: &Ctx) -> Report {
 	for f in Family::BOTH {
 		let fr = FamRefs::new(refs, f);
 		let mut dom = iri_domain(f, &fr, n, level);
+		// beyond the 16-segment inline buffers (relative_to and the normalised-segment iterator)
+		for lp in domains::long_paths(true) {
+			for pre in ["s://h", "s:"] {
+				for suf in ["", "?q"] {
+					let mut t = pre.as_bytes().to_vec();
+					t.extend_from_slice(&lp);
+					t.extend_from_slice(suf.as_bytes());
+					if fr.valid(Kind::Ri, &t) {
+						dom.push(t);
+					}
+				}
+			}
+		}
 		if !ctx.quick() {
 			// thorough: additionally the full segment alphabet at PATH(2)
 			let known: std::collections::HashSet<Vec<u8>> = dom.iter().cloned().collect();
@@ -102,7 +115,14 @@ pub fn run_c16(ctx: &Ctx) -> Report {
 		let segs: Vec<Vec<u8>> = ["", ".", "..", "a", "b", "a:b", "%61", "%FF", "x%62", "X%62", "xb"].iter().map(|s| domains::b(s)).collect();
 		let paths: Vec<Vec<u8>> = domains::paths(&segs, n).into_iter().filter(|p| ref_valid(&dpath, f, Kind::Path, p)).collect();
 		// quick: all pairs of PATH(3) would be 9e6; keep the prefix side at PATH(2)
-		let prefixes: Vec<Vec<u8>> = domains::paths(&segs, n - 1).into_iter().filter(|p| ref_valid(&dpath, f, Kind::Path, p)).collect();
+		let mut prefixes: Vec<Vec<u8>> = domains::paths(&segs, n - 1).into_iter().filter(|p| ref_valid(&dpath, f, Kind::Path, p)).collect();
+		let mut paths = paths;
+		for abs in [false, true] {
+			for lp in domains::long_paths(abs) {
+				paths.push(lp.clone());
+				prefixes.push(lp);
+			}
+		}
 		total.count(&format!("{}_paths", f.name()), paths.len() as u64);
 		let shards = 128usize;
 		let r = run_shards(ctx, shards, |si| {
